@@ -11,7 +11,7 @@ LEVEL = 'exploration'
 RULE = ('all 366 (month, day) x layouts {Month d, m/d, d Month} and the 7 weekday names x references that put the stated day before, ON and '
         'after the reference day, at midnight and not, plus boundary and seeded references 1950..2090 (quick tier: every month-day once '
         'with 3 references; thorough: every month-day with 12 references). non-trivial = one entity with two values; distinct = distinct '
-        '(query, reference). 29 February is additionally asked against every reference year 1950..2090.')
+        '(query, reference). 29 February is additionally asked against every reference year 1950..2090; weekday names and "d <month name>" forms of es, fr, de, it, nl, pt, zh against boundary and seeded references.')
 EXHAUSTIVE = False
 JOB_TIMEOUT = 1500
 DIM = [31, 29, 31, 30, 31, 30, 31, 31, 30, 31, 30, 31]
@@ -38,11 +38,21 @@ def occ(mo, d, D):
     return past, fut
 
 
-def check(m, q, R, want, timex, ctx, cls, rel):
+WD_CULT = {'es-es': ['lunes', 'martes', 'miércoles', 'jueves', 'viernes', 'sábado', 'domingo'], 'fr-fr': ['lundi', 'mardi', 'mercredi', 'jeudi', 'vendredi', 'samedi', 'dimanche'],
+           'de-de': ['Montag', 'Dienstag', 'Mittwoch', 'Donnerstag', 'Freitag', 'Samstag', 'Sonntag'], 'it-it': ['lunedì', 'martedì', 'mercoledì', 'giovedì', 'venerdì', 'sabato', 'domenica'],
+           'nl-nl': ['maandag', 'dinsdag', 'woensdag', 'donderdag', 'vrijdag', 'zaterdag', 'zondag'],
+           'pt-br': ['segunda-feira', 'terça-feira', 'quarta-feira', 'quinta-feira', 'sexta-feira', 'sábado', 'domingo'],
+           'zh-cn': ['星期一', '星期二', '星期三', '星期四', '星期五', '星期六', '星期日']}
+MD_CULT = {'es-es': lambda mo, d, M: '%d de %s' % (d, M[mo - 1]), 'fr-fr': lambda mo, d, M: '%d %s' % (d, M[mo - 1]), 'de-de': lambda mo, d, M: '%d. %s' % (d, M[mo - 1]),
+           'it-it': lambda mo, d, M: '%d %s' % (d, M[mo - 1]), 'nl-nl': lambda mo, d, M: '%d %s' % (d, M[mo - 1]), 'pt-br': lambda mo, d, M: '%d de %s' % (d, M[mo - 1]),
+           'zh-cn': lambda mo, d, M: '%d月%d日' % (mo, d)}
+
+
+def check(m, q, R, want, timex, ctx, cls, rel, culture='en-us'):
     from rtmon import lib
-    where = {'model': 'DateTimeModel', 'culture': 'en-us', 'cls': cls}
+    where = {'model': 'DateTimeModel', 'culture': culture, 'cls': cls}
     case = {'query': q, 'reference': R.isoformat(), 'want': want, 'timex': timex, 'cls': cls, 'rel': rel}
-    key = '%s|%s' % (q, R.isoformat())
+    key = '%s|%s|%s' % (culture, q, R.isoformat())
     lib.take_swallowed()
     try:
         r = m.parse(q, R)
@@ -135,12 +145,44 @@ def gen(ctx):
             yield w, R, [p.isoformat(), f.isoformat()], 'XXXX-WXX-%d' % (i + 1), 'weekday', 'on' if delta == 0 and R.time() != dt.time(0, 0) else 'on0' if delta == 0 else 'other'
 
 
+def gen_culture(ctx, cu):
+    r = ctx.rng('c09:' + cu)
+    M = dtlib.CULT[cu]['months']
+    refs = dtlib.refs(r, 6 if ctx.tier == 'quick' else 150)
+    for R in (refs if ctx.tier == 'thorough' else r.sample(refs, 12)):
+        D = R.date()
+        for i, w in enumerate(WD_CULT[cu]):
+            delta = (i - D.weekday()) % 7
+            f = D + dt.timedelta(days=delta)
+            p = f - dt.timedelta(days=7)
+            yield w, R, [p.isoformat(), f.isoformat()], 'XXXX-WXX-%d' % (i + 1), 'weekday', 'on' if delta == 0 and R.time() != dt.time(0, 0) else 'on0' if delta == 0 else 'other'
+        mds = [(r.randrange(1, 13), r.randrange(1, 29)) for _ in range(4)] + [(2, 29), (12, 31), (1, 1), (D.month, D.day)]
+        for mo, d in mds:
+            try:
+                dt.date(2000, mo, d)
+            except ValueError:
+                continue
+            p, f = occ(mo, d, D)
+            rel = 'other'
+            if (mo, d) == (D.month, D.day):
+                rel = 'on' if R.time() != dt.time(0, 0) else 'on0'
+            yield MD_CULT[cu](mo, d, M), R, [p.isoformat(), f.isoformat()], 'XXXX-%02d-%02d' % (mo, d), 'monthday|name', rel
+
+
 def plan(tier, seed):
     n = 8 if tier == 'quick' else 16
-    return [{'name': 's%d' % i, 'shard': i, 'shards': n} for i in range(n)]
+    jobs = [{'name': 's%d' % i, 'shard': i, 'shards': n} for i in range(n)]
+    jobs += [{'name': 'cult-' + cu, 'culture': cu} for cu in sorted(WD_CULT)]
+    return jobs
 
 
 def run(job, ctx):
+    if 'culture' in job:
+        cu = job['culture']
+        m = dtlib.dt_model(cu)
+        for q, R, want, timex, cls, rel in gen_culture(ctx, cu):
+            check(m, q, R, want, timex, ctx, cls, rel, culture=cu)
+        return
     m = dtlib.dt_model('en-us')
     for i, (q, R, want, timex, cls, rel) in enumerate(gen(ctx)):
         if i % job['shards'] == job['shard']:
@@ -149,4 +191,5 @@ def run(job, ctx):
 
 def replay_case(fail, ctx):
     c = fail['case']
-    check(dtlib.dt_model('en-us'), c['query'], dt.datetime.fromisoformat(c['reference']), c['want'], c['timex'], ctx, c['cls'], c['rel'])
+    cu = fail.get('where', {}).get('culture', 'en-us')
+    check(dtlib.dt_model(cu), c['query'], dt.datetime.fromisoformat(c['reference']), c['want'], c['timex'], ctx, c['cls'], c['rel'], culture=cu)
